@@ -476,3 +476,25 @@ PROPS["C16"] = Prop(
     technique="runtime monitor: labelled-edit oracle for diff_build, canonical-dump equality after apply / reverse / failed apply, under gcc ASan+UBSan+LSan",
     level_text="exploration: random labelled edit sets on copies of annotated topologies; build/apply/reverse/XML/rollback checked per pair",
 )
+
+
+PROPS["C19"] = Prop(
+    "C19",
+    [Stage("asan", "c19_shmem", "asan", quick=1500, thorough=40000, per_worker_env=xml_backend_env)],
+    rule=("one topology per case (synthetic or corpus XML, random configuration, 0-9 annotating / restricting calls): get_length; write into a memfd at "
+          "a page-aligned offset 0..8 pages at an address whose following 64 MiB are PROT_NONE (any byte written past `length` faults, attributed by "
+          "the context key); adopt with wrong address / length / offset / flags and with a corrupted header version or ABI word (EINVAL), adopt "
+          "twice (EBUSY); adopt; WF oracle + built-in check, canonical dump and XML bytes of the adopted topology vs the original (every getter runs "
+          "on the read-only mapping, a getter that writes faults); dup of the adopted topology; restrict, insert_misc, alloc/insert group, "
+          "distances add_create/remove/remove_by_depth/release_remove, diff_apply, memattr register/set_value, cpukinds_register must fail and leave "
+          "the dump unchanged, refresh must leave it unchanged; allow(ALL) and "
+          "allow(CUSTOM) must work when the source had INCLUDE_DISALLOWED (EINVAL otherwise); destroy must unmap the range (/proc/self/maps). "
+          "hwloc_obj_add_info and hwloc_obj_set_subtype (no way to know that their object lives in a read-only mapping) run in a sub-fork and are "
+          "recorded, not judged. distinct+non-trivial = class 1: shares of topologies with >= 2 side structures or a non-zero offset, keyed by (features, offset, shape)"),
+    nontrivial_classes=[1], floor=100,
+    assumptions=COMMON_ASSUME + ["every modifying entry point that receives the topology is judged; hwloc_obj_add_info / hwloc_obj_set_subtype on objects of an adopted topology "
+                                 "(the documentation says object fields cannot be changed) are recorded in the evidence but carry no verdict",
+                                 "writer and adopter are the same process (the adopt path is identical; cross-process ABI differences cannot occur with one build)"],
+    technique="runtime monitor: PROT_NONE guard region + ASan fault attribution, canonical-dump / XML equality, errno checks, /proc/self/maps inspection",
+    level_text="exploration: write/adopt of annotated topologies at several offsets; guard region after the mapping; adopted-side modifying calls and allow()",
+)
